@@ -32,6 +32,8 @@
 (*   C18/accepted-wrongly/<why>   incomplete status upgrade accept badurl   *)
 (*   C18/rejected-wrongly/<feat>  feat = input class of the response        *)
 (*   C18/half-open                error reported but State() # terminated   *)
+(*   C18/half-open/<call>         ... or the failed stream accepts a call    *)
+(*                                (nextframe write close pending panic)      *)
 (*   C18/state                    no error but State() # active             *)
 (*   C18/callback-count           completion not reported exactly once      *)
 (*   C18/leftover/<feat>          frames after the blank line lost,         *)
@@ -134,6 +136,7 @@ ObsEnd(e) ==
   ELSE IF e.err = "panic" THEN Fail("C18/panic/read")
   ELSE IF mstage = "reading" /\ (e.ndeliv # mndel) THEN Fail("C18/harness/end-count")
   ELSE IF mstage = "reading" /\ mndel # mnsent THEN Fail("C18/leftover/" \o mfeat)
+  ELSE IF mstage = "failed" /\ e.probe # "ok" THEN Fail("C18/half-open/" \o e.probe)
   ELSE IF e.cbytes > 0 THEN Fail("C18/not-fresh/stale-frame-sent")
   ELSE /\ mstage' = "ended"
        /\ UNCHANGED <<mexp, mwhy, mfeat, mnsent, mndel, mkeys, bad>>
